@@ -154,6 +154,25 @@ func (r *Run) IsKnown(sig string) bool {
 	return r.known[sig]
 }
 
+// Violations returns a copy of the recorded violations (first per signature).
+func (r *Run) Violations() []Violation {
+	r.mu.Lock()
+	defer r.mu.Unlock()
+	var out []Violation
+	for _, v := range r.violations {
+		out = append(out, *v)
+	}
+	return out
+}
+
+// Has reports whether a violation with this signature was recorded.
+func (r *Run) Has(sig string) bool {
+	r.mu.Lock()
+	defer r.mu.Unlock()
+	_, ok := r.violations[sig]
+	return ok
+}
+
 // HasUnknownViolation reports whether a violation outside the known findings was recorded.
 func (r *Run) HasUnknownViolation() bool {
 	r.mu.Lock()
